@@ -16,7 +16,7 @@ pub const CHECK: Check = Check { id: "C02", level: "fault_enumeration", flavours
 
 const RULE: &str = "cases = (generated archive, truncation length n, repair mode): on the scaled build every n in 0..=len, \
 on the production build every n within +-24 of every structural boundary (header end, chunk edges, tag starts, \
-compressed-block / record edges, end marker, footers) plus 200 spread lengths; each prefix is repaired in authenticated \
+compressed-block / record edges, end marker, footers) plus 200 spread lengths; each prefix, read from memory or (half of the lengths) through a source that returns fewer bytes than asked, is repaired in authenticated \
 and (for encrypted archives) unauthenticated mode into a layer-less archive that is re-read with the normal reader. \
 Oracle: no panic; n >= header length => repair returns Ok and its output opens; every output name is an original name; \
 every output content is a prefix of the original; files not reported unfinished are complete and byte-identical; status \
@@ -65,6 +65,17 @@ pub fn check_sound_raw(model: &BTreeMap<String, Vec<u8>>, total: usize, header_l
     Ok(())
 }
 
+/// Repair the first `n` bytes. The prefix is read from memory or, for half of the lengths, through a source that
+/// returns fewer bytes than asked (what a pipe, a socket or a buffered reader does): the statement holds whatever the
+/// source. The choice is a function of `n` alone, so that a replay repeats it.
+pub fn repair_cut(bytes: &[u8], n: usize, keys: &[x25519_dalek::StaticSecret], auth: bool) -> Result<RepairOut, RepairErr> {
+    match (n ^ (n >> 3)) % 4 {
+        0 | 1 => prog::repair(&bytes[..n], keys, auth),
+        2 => prog::repair_from(crate::io::ThrottledReader::new(&bytes[..n], vec![5, 16, 3]), keys, auth),
+        _ => prog::repair_from(crate::io::ThrottledReader::new(&bytes[..n], vec![(CHUNK - 1) as u16, 17]), keys, auth),
+    }
+}
+
 pub fn cuts_for(a: &Arch) -> Vec<usize> {
     fault::truncations(a.bytes.len(), &a.boundaries, 24, 200)
 }
@@ -98,7 +109,7 @@ fn oracle(c: &Case, st: &mut Stats) -> Result<(), String> {
         if n > a.header_len && n < a.bytes.len() {
             st.nontrivial(ah ^ (n as u64).wrapping_mul(0x9E3779B97F4A7C15) ^ auth as u64);
         }
-        let r = prog::repair(&a.bytes[..n], &a.reader_keys, auth);
+        let r = repair_cut(&a.bytes, n, &a.reader_keys, auth);
         match &r {
             Ok(o) if o.end_reached => st.label("result:end-reached"),
             Ok(o) if o.unfinished.is_some() => st.label("result:unfinished-files"),
@@ -137,7 +148,7 @@ fn foreign(c: &super::c06::BackCase, st: &mut Stats) -> Result<(), String> {
             if n > header_len && n < bytes.len() {
                 st.nontrivial(ah ^ (n as u64).wrapping_mul(0x9E3779B97F4A7C15) ^ auth as u64);
             }
-            let r = prog::repair(&bytes[..n], &[key.clone()], auth);
+            let r = repair_cut(&bytes, n, &[key.clone()], auth);
             check_sound_raw(&model, bytes.len(), header_len, layers, n, auth, &r).map_err(|e| format!("archive encoded per FORMAT.md: {e}"))?;
         }
     }
@@ -258,7 +269,7 @@ fn look_alike(c: &LookCase, st: &mut Stats) -> Result<(), String> {
         for &auth in modes {
             st.eval(1);
             st.nontrivial(ah ^ (n as u64).wrapping_mul(0x9E3779B97F4A7C15) ^ auth as u64);
-            let r = prog::repair(&bytes[..n], &keys.recipients, auth);
+            let r = repair_cut(&bytes, n, &keys.recipients, auth);
             check_sound_raw(&model, len, header_len, c.layers, n, auth, &r).map_err(|e| format!("file whose bytes after a compression-block boundary read as archive records: {e}"))?;
         }
     }
@@ -285,7 +296,7 @@ fn pin(c: &Case) -> Case {
     let modes: &[bool] = if a.res.layers & 1 != 0 { &[true, false] } else { &[true] };
     for n in cuts_for(&a) {
         for &m in modes {
-            let r = prog::repair(&a.bytes[..n], &a.reader_keys, m);
+            let r = repair_cut(&a.bytes, n, &a.reader_keys, m);
             if check_sound(&a, n, m, &r).is_err() {
                 return Case { program: c.program.clone(), only: Some((n, m)) };
             }
